@@ -124,6 +124,7 @@ func drawClock(s Src, c sim.Config, nsteps int) sim.Config {
 	if Bool(s, "clockns") {
 		c.ClockNs = int64(s.Int("ns", 0, 999999))
 	}
+	c.TZOffsetMin = Pick(s, "tz", []int{0, 0, 360, -300, 330, 765, -720, 345})
 	return c
 }
 
